@@ -60,6 +60,9 @@ def model(met):
 
 def values(field, n, salt):
     # distinct, self-identifying entries
+    if field == "wind_speed" and salt % 2 == 0:
+        # a series with light-wind and calm records among ordinary ones (every record is its own step, whatever its speed)
+        return [[3.2, 0.4, 0.45, 0.0, 2.1][i % 5] + 0.001 * salt + 0.0001 * i for i in range(n)]
     return [BASE[field] * (1 + 0.01 * (i + 1)) + 0.001 * salt for i in range(n)]
 
 
